@@ -115,7 +115,7 @@ fn split8(r: &[u64; 8]) -> (L, L) {
 fn run_jubjub(ctx: &mut Ctx) {
     let n = "JubjubFr";
     let p = modulus::<JubjubFr>();
-    let nr = if ctx.quick() { 4 } else { 40 };
+    let nr = crate::sz(ctx, 4, 40);
     let cls = limb_classes(ctx, "lf:JubjubFr", &p, nr);
     let f = JubjubFr::verif_from_limbs;
     for (c, a) in &cls {
@@ -167,7 +167,7 @@ fn run_jubjub(ctx: &mut Ctx) {
             }
         }
     }
-    for (c, w) in wide_classes(ctx, "wide:JubjubFr", &p, if ctx.quick() { 8 } else { 200 }) {
+    for (c, w) in wide_classes(ctx, "wide:JubjubFr", &p, crate::sz(ctx, 8, 200)) {
         ctx.count(&format!("wide:{c}"));
         let (lo, hi) = split8(&w);
         ctx.case("lf.mont_reduce", true, &format!("lf {n} mont_reduce {} {}", ls(&lo), ls(&hi)), &ls(&JubjubFr::verif_montgomery_reduce(w).verif_limbs()));
@@ -187,7 +187,7 @@ fn fq_limbs(x: &BlsFq) -> L {
 fn run_bls_fq(ctx: &mut Ctx) {
     let n = "BlsFq";
     let p = modulus::<BlsFq>();
-    let nr = if ctx.quick() { 4 } else { 40 };
+    let nr = crate::sz(ctx, 4, 40);
     let cls = limb_classes(ctx, "lf:BlsFq", &p, nr);
     for (c, a) in &cls {
         ctx.count(&format!("limbs:{c}"));
@@ -214,7 +214,7 @@ fn run_bls_fq(ctx: &mut Ctx) {
             }
         }
     }
-    for (c, w) in wide_classes(ctx, "wide:BlsFq", &p, if ctx.quick() { 8 } else { 200 }) {
+    for (c, w) in wide_classes(ctx, "wide:BlsFq", &p, crate::sz(ctx, 8, 200)) {
         ctx.count(&format!("wide:{c}"));
         let (lo, hi) = split8(&w);
         ctx.case("lf.mont_reduce", true, &format!("lf {n} mont_reduce {} {}", ls(&lo), ls(&hi)), &ls(&BlsFq::verif_montgomery_reduce(w)));
@@ -224,7 +224,7 @@ fn run_bls_fq(ctx: &mut Ctx) {
 fn run_c25519(ctx: &mut Ctx) {
     let n = "C25519Fp";
     let p = modulus::<C25519Fp>();
-    let nr = if ctx.quick() { 4 } else { 40 };
+    let nr = crate::sz(ctx, 4, 40);
     let cls = limb_classes(ctx, "lf:C25519Fp", &p, nr);
     for (c, a) in &cls {
         ctx.count(&format!("limbs:{c}"));
@@ -257,7 +257,7 @@ fn run_c25519(ctx: &mut Ctx) {
             ctx.case("lf.mul", nt, &format!("lf {n} mul {} {}", ls(a), ls(b)), &ls(&x.mul(&y).0));
         }
     }
-    for (c, w) in wide_classes(ctx, "wide:C25519Fp", &p, if ctx.quick() { 8 } else { 200 }) {
+    for (c, w) in wide_classes(ctx, "wide:C25519Fp", &p, crate::sz(ctx, 8, 200)) {
         ctx.count(&format!("wide:{c}"));
         let (lo, hi) = split8(&w);
         ctx.case("lf.mont_reduce", true, &format!("lf {n} mont_reduce {} {}", ls(&lo), ls(&hi)), &ls(&C25519Fp::verif_montgomery_reduce(&w).0));
